@@ -490,11 +490,16 @@ def rule_r4(rep, idxs):
     rep.analysed(emit.sig, 'xcmp.cpp')
     opened = False
     late = []
+    stream_id = None
     for st in children(emit.body):
         if not opened:
-            if any(d['kind'] == 'VarDecl' and any(t in dqt_all(d) for t in OUT_STREAM_TYPES) for d in walk(st)):
+            vds = [d for d in walk(st) if d['kind'] == 'VarDecl' and any(t in dqt_all(d) for t in OUT_STREAM_TYPES)]
+            if vds:
                 opened = True
+                stream_id = vds[0]['id']
             continue
+        if not late and open_failure_guard(st, stream_id):
+            continue        # taken only when the open failed: no file exists, rejecting here leaves nothing behind (see R7)
         late.append(st)
     if not opened:
         raise AnalysisBroken('emitBin no longer opens a std::fstream (anchor changed)')
@@ -514,6 +519,53 @@ def rule_r4(rep, idxs):
             names.add(callee_of(x)[1])
     rep.add('R4', 'validate-before-emit:hexasm::CodeGen::CodeGen', 'resolveLabels' in names and 'createLabelMap' in names,
             pos(ctor[0].node) if ctor else '?', 'constructor calls %s' % sorted(n for n in names if n))
+
+
+STATE_TESTS = {'is_open', 'fail', 'good', 'bad', 'operator!', 'operator bool'}
+
+
+def open_failure_guard(st, var_id):
+    """True if `st` is `if (<test of the state of stream var_id, possibly negated>) { ... throw ... }` -- the branch taken when the
+    open failed, in which no file has been created."""
+    if st.get('kind') != 'IfStmt':
+        return False
+    ch = children(st)
+    if len(ch) < 2 or not any(x['kind'] == 'CXXThrowExpr' for x in walk(ch[1])):
+        return False
+    tests = 0
+    for x in walk(ch[0]):
+        if x['kind'] in ('CXXMemberCallExpr', 'CXXOperatorCallExpr'):
+            kind, name, did, obj = callee_of(x)
+            if name in STATE_TESTS and any(y['kind'] == 'DeclRefExpr' and (y.get('referencedDecl') or {}).get('id') == var_id for y in walk(x)):
+                tests += 1
+            elif name not in STATE_TESTS:
+                return False
+        if x['kind'] == 'DeclRefExpr' and (x.get('referencedDecl') or {}).get('kind') in ('VarDecl', 'ParmVarDecl') and \
+                (x.get('referencedDecl') or {}).get('id') != var_id:
+            return False
+    return tests > 0
+
+
+def rule_r7(rep, idxs):
+    rep.rule('R7', 'a failure to open the binary output file is an error like any other: directly after the output stream is opened its '
+             'state is tested and a failed open raises an exception (which R1 turns into a diagnostic and a non-zero status); nothing is '
+             'written before the test', floor=1, floor_reason='hexasm::CodeGen::emitBin (shared by hexasm, xcmp and xrun)')
+    idx = idxs['xcmp.cpp']
+    emit = idx.func('hexasm::CodeGen::emitBin')
+    stmts = children(emit.body)
+    for i, st in enumerate(stmts):
+        vds = [d for d in walk(st) if d['kind'] == 'VarDecl' and any(t in dqt_all(d) for t in OUT_STREAM_TYPES)]
+        if not vds:
+            continue
+        vid = vds[0]['id']
+        nxt = stmts[i + 1] if i + 1 < len(stmts) else None
+        ok = nxt is not None and open_failure_guard(nxt, vid)
+        rep.add('R7', 'open-failure-diagnosed:hexasm::CodeGen::emitBin', ok, pos(st) + ' hexasm::CodeGen::emitBin',
+                'the statement after the open tests the stream and throws' if ok else
+                'the output stream is written without testing whether the open succeeded: with an unwritable -o path the tool prints '
+                'nothing, writes nothing and exits 0')
+        return
+    raise AnalysisBroken('emitBin no longer opens a std::fstream (anchor changed)')
 
 
 def reachable_throws(idx, stmts, depth=10):
@@ -655,3 +707,4 @@ def run(rep, tier):
     rule_r4(rep, idxs)
     rule_r5(rep, idxs)
     rule_r6(rep, idxs)
+    rule_r7(rep, idxs)
